@@ -130,3 +130,35 @@ Proof. vm_compute. repeat split. Qed.
 (* PARTIAL (what is left): cuts inside the variable part of an MPLS stack or an SRv6 segment list beyond the
    header's minimal length, and cuts exactly at a header boundary behind an MPLS stack (the dissector then
    cannot see the IP version nibble), are covered by the check's exhaustive cut sweep, not by a theorem. *)
+
+(* ---- the capture cut short, in the property's own words ------------------------------------------------------
+   "When the capture is cut short, every reported field still equals the frame's true value or is left unset":
+   for EVERY well-formed frame and every cut c bytes into header j (1 <= c < that header's minimal length), every
+   column of the message -- other than the ethertype and the VLAN id, which report the last tag seen, and the two layer
+   lists -- equals the value the COMPLETE frame gives it (ref_frame f) or is unset.  Proofs/FrameCutP.v: the message is
+   built by the frame's headers in order, and no such column is written by two headers outside a tunnel. *)
+From GF Require Import Proofs.FrameCutP.
+Theorem c10_cut_true_or_unset : forall f j c, wf_frame f = true -> (j < length (frame_chain f))%nat ->
+  (1 <= c < min_len (lp (nth j (frame_chain f) dummy_layer)))%nat ->
+  exists m,
+    parse_packet empty_pcfg empty_msg
+      (firstn (length (concat (map lhdr (firstn j (frame_chain f)))) + c) (encode_frame f)) = Ok m /\
+    forall k, k <> cEtype -> k <> cVlanId -> k <> cLayerStack -> k <> cLayerSize ->
+      alookup (cols m) k = alookup (cols (ref_frame f)) k \/ alookup (cols m) k = None.
+Proof. exact cut_true_or_unset. Qed.
+Print Assumptions c10_cut_true_or_unset.
+
+(* ... and it reports exactly the j layers in front of the cut, with one size each *)
+Theorem c10_cut_layers : forall f j c, wf_frame f = true -> (j < length (frame_chain f))%nat ->
+  (1 <= c < min_len (lp (nth j (frame_chain f) dummy_layer)))%nat ->
+  exists m,
+    parse_packet empty_pcfg empty_msg
+      (firstn (length (concat (map lhdr (firstn j (frame_chain f)))) + c) (encode_frame f)) = Ok m /\
+    length (mgetLI m cLayerStack) = j /\ length (mgetLI m cLayerSize) = j.
+Proof. exact cut_layers. Qed.
+Print Assumptions c10_cut_layers.
+
+(* no column outside the ethertype and the VLAN id is written by two headers of a frame (outside a tunnel) *)
+Theorem c10_columns_written_once : forall f, wf_frame f = true -> NoDup (fkeys (applied false (frame_chain f))).
+Proof. exact frame_applied_nodup. Qed.
+Print Assumptions c10_columns_written_once.
